@@ -160,6 +160,15 @@ class PathInfo:
         NEG = {"Lt": "Ge", "Ge": "Lt", "Gt": "Le", "Le": "Gt", "Eq": "Ne", "Ne": "Eq"}
         out = []
         for d in self.decisions():
+            if d[0] == "int" and d[2]:
+                # `match x { 0 => .., _ => .. }` tests x against one literal: the same fact as `x == 0` / `x != 0`
+                if len(d[2]) == 1 and d[2][0] != "otherwise":
+                    out.append(("Eq", d[1], str(d[2][0])))
+                    out.append(("Eq", str(d[2][0]), d[1]))
+                elif len(d[2]) == 2 and d[2][0] == "otherwise":
+                    out.append(("Ne", d[1], str(d[2][1])))
+                    out.append(("Ne", str(d[2][1]), d[1]))
+                continue
             if d[0] != "bool":
                 continue
             ds = terms.strip(d[3])
